@@ -1,9 +1,11 @@
 /-
 C02 — byte-level lemmas: chunked backward line reader, cross-reference stream rows.
 -/
-import PdfVerif.Model.Xref
+import PdfVerif.Spec.XrefWrite
 
 namespace PdfVerif.Xref
+
+open PdfVerif.Gen.Xref
 
 /-! ### `revreadlines`: specification by a single right-to-left pass -/
 
@@ -191,24 +193,12 @@ theorem revLoop_spec (bufsiz : Nat) (hb : 1 ≤ bufsiz) (data : Bytes) (fuel pos
 
 /-! ### Cross-reference stream rows: encoder (the writer's side) and decoding lemmas -/
 
-/-- Big-endian, fixed width `w`. -/
-def bePack : Nat → Nat → Bytes
-  | 0, _ => []
-  | w + 1, v => bePack w (v / 256) ++ [UInt8.ofNat (v % 256)]
-
-abbrev Row := Nat × Nat × Nat
-
-def encodeRow (w1 w2 w3 : Nat) (r : Row) : Bytes := bePack w1 r.1 ++ (bePack w2 r.2.1 ++ bePack w3 r.2.2)
-
-def encodeRows (w1 w2 w3 : Nat) : List Row → Bytes
-  | [] => []
-  | r :: rs => encodeRow w1 w2 w3 r ++ encodeRows w1 w2 w3 rs
-
 /-- A field value can be written in width `w`: it fits, or the width is 0 and the value is the
 default that `nunpack` supplies. -/
 def Fits (w dflt v : Nat) : Prop := (w = 0 ∧ v = dflt) ∨ (0 < w ∧ v < 256 ^ w)
 
-def FitsRow (w1 w2 w3 : Nat) (r : Row) : Prop := Fits w1 1 r.1 ∧ Fits w2 0 r.2.1 ∧ Fits w3 0 r.2.2
+def FitsRow (w1 w2 w3 : Nat) (r : Row) : Prop :=
+  Fits w1 typeDefault r.1 ∧ Fits w2 field2Default r.2.1 ∧ Fits w3 field3Default r.2.2
 
 theorem length_bePack (w v : Nat) : (bePack w v).length = w := by
   induction w generalizing v with
@@ -308,24 +298,10 @@ theorem row_encodeRows (ranges : List (Nat × Nat)) (w1 w2 w3 : Nat) (rows : Lis
     exact drop_len_append' _ _ _ (by simp [length_bePack])
   rw [hd, nunpack_bePack _ _ _ h1, nunpack_bePack _ _ _ h2, nunpack_bePack _ _ _ h3]
 
+theorem rowType_eq_row (x : XStream) (i : Nat) : x.rowType i = (x.row i).1 := by
+  simp [XStream.rowType, XStream.row, objidsTypeDefault, typeDefault]
+
 /-! Range-by-range specification of `/Index`: the first `c` rows belong to the first range. -/
-
-def rowSpec : List (Nat × Nat) → List Row → Nat → Option Row
-  | [], _, _ => none
-  | (s, c) :: rest, rows, n => if s ≤ n ∧ n < s + c then rows[n - s]? else rowSpec rest (rows.drop c) n
-
-def objidsSpec : List (Nat × Nat) → List Row → List Nat
-  | [], _ => []
-  | (s, c) :: rest, rows =>
-    ((List.range c).filterMap (fun i =>
-        match rows[i]? with
-        | some r => if inUseType r.1 then some (s + i) else none
-        | none => none))
-      ++ objidsSpec rest (rows.drop c)
-
-def sumCounts : List (Nat × Nat) → Nat
-  | [] => 0
-  | (_, c) :: rest => c + sumCounts rest
 
 theorem findIndex_rowSpec (ranges : List (Nat × Nat)) (rows : List Row) (n acc : Nat) :
     (findIndex ranges n acc).bind (fun i => rows[i]?) = rowSpec ranges (rows.drop acc) n := by
@@ -380,7 +356,7 @@ theorem objidsAux_spec (ranges : List (Nat × Nat)) (w1 w2 w3 : Nat) (rows : Lis
       have hic : i < c := List.mem_range.mp hi
       have hlt : idx + i < rows.length := by omega
       have hget : rows[idx + i]? = some rows[idx + i] := List.getElem?_eq_getElem hlt
-      rw [row_encodeRows allr w1 w2 w3 rows (idx + i) _ hget (hf _ (List.getElem_mem hlt))]
+      rw [rowType_eq_row, row_encodeRows allr w1 w2 w3 rows (idx + i) _ hget (hf _ (List.getElem_mem hlt))]
       simp [List.getElem?_drop, hget]
     · simp [List.drop_drop]
 
